@@ -9,10 +9,13 @@ use std::sync::Arc;
 
 /// Characters an implementation might treat specially although MQTT does not: BOM, non-characters,
 /// the edges of the surrogate gap and of Unicode, white space of several kinds (trimming), a combining
-/// mark (normalisation), upper case (case folding), zero-width space.
-pub const SPECIALS: [&str; 16] = ["\u{feff}", "\u{fffe}", "\u{ffff}", "\u{d7ff}", "\u{e000}", "\u{10ffff}", "\u{a0}", "\t", "\n", "\r", "\u{2028}", "\u{301}", "A", "\u{85}", "\u{200b}", "\u{1}"];
-pub const CHARS: [&str; 28] = ["a", "b", "z", "0", " ", "/", "$", "é", "你", "😀", "\u{7f}", "\u{0}", "\u{feff}", "\u{fffe}", "\u{ffff}", "\u{d7ff}", "\u{e000}", "\u{10ffff}", "\u{a0}", "\t", "\n", "\r", "\u{2028}", "\u{301}", "A", "\u{85}", "\u{200b}", "\u{1}"];
-pub const TOPIC_CHARS: [&str; 24] = ["a", "b", "0", " ", "$", "é", "你", "😀", "\u{feff}", "\u{fffe}", "\u{ffff}", "\u{d7ff}", "\u{e000}", "\u{10ffff}", "\u{a0}", "\t", "\n", "\r", "\u{2028}", "\u{301}", "A", "\u{85}", "\u{200b}", "\u{1}"];
+/// mark (normalisation), upper case (case folding), zero-width space; U+FFFD (what a LOSSY decoder
+/// substitutes — a legitimate character all the same), the object-replacement character, noncharacters
+/// of all three kinds (U+FDD0…, U+nFFFE), soft hyphen, bidi and word-joiner controls, private use,
+/// paragraph separator, the C0/C1 control edges.
+pub const SPECIALS: [&str; 32] = ["\u{feff}", "\u{fffe}", "\u{ffff}", "\u{d7ff}", "\u{e000}", "\u{10ffff}", "\u{a0}", "\t", "\n", "\r", "\u{2028}", "\u{301}", "A", "\u{85}", "\u{200b}", "\u{1}", "\u{fffd}", "\u{fffc}", "\u{fdd0}", "\u{fdef}", "\u{1fffe}", "\u{10fffe}", "\u{ad}", "\u{200e}", "\u{2060}", "\u{f8ff}", "\u{2029}", "\u{b}", "\u{c}", "\u{1f}", "\u{80}", "\u{9f}"];
+pub const CHARS: [&str; 44] = ["a", "b", "z", "0", " ", "/", "$", "é", "你", "😀", "\u{7f}", "\u{0}", "\u{feff}", "\u{fffe}", "\u{ffff}", "\u{d7ff}", "\u{e000}", "\u{10ffff}", "\u{a0}", "\t", "\n", "\r", "\u{2028}", "\u{301}", "A", "\u{85}", "\u{200b}", "\u{1}", "\u{fffd}", "\u{fffc}", "\u{fdd0}", "\u{fdef}", "\u{1fffe}", "\u{10fffe}", "\u{ad}", "\u{200e}", "\u{2060}", "\u{f8ff}", "\u{2029}", "\u{b}", "\u{c}", "\u{1f}", "\u{80}", "\u{9f}"];
+pub const TOPIC_CHARS: [&str; 40] = ["a", "b", "0", " ", "$", "é", "你", "😀", "\u{feff}", "\u{fffe}", "\u{ffff}", "\u{d7ff}", "\u{e000}", "\u{10ffff}", "\u{a0}", "\t", "\n", "\r", "\u{2028}", "\u{301}", "A", "\u{85}", "\u{200b}", "\u{1}", "\u{fffd}", "\u{fffc}", "\u{fdd0}", "\u{fdef}", "\u{1fffe}", "\u{10fffe}", "\u{ad}", "\u{200e}", "\u{2060}", "\u{f8ff}", "\u{2029}", "\u{b}", "\u{c}", "\u{1f}", "\u{80}", "\u{9f}"];
 
 pub fn boundaries_path() -> Option<std::path::PathBuf> {
     let exe = std::env::current_exe().ok()?;
@@ -798,6 +801,14 @@ pub fn sweep_v3(thorough: bool) -> Vec<v3::Packet> {
         out.push(Packet::Connect(Connect { protocol: Protocol::V310, clean_session: false, keep_alive: 1, client_id: Arc::new(t.clone()), last_will: None, username: Some(Arc::new(t)), password: None }));
     }
     for n in sweep_counts() {
+        if n > 0 {
+            // a RUN of n equal codes that ENDS (followed by a different code), and one that starts late
+            let mut run = vec![SubscribeReturnCode::MaxLevel1; n];
+            run.push(SubscribeReturnCode::Failure);
+            out.push(Packet::Suback(Suback { pid: Pid::try_from(5).unwrap(), topics: run.clone() }));
+            run.rotate_right(1);
+            out.push(Packet::Suback(Suback { pid: Pid::try_from(5).unwrap(), topics: run }));
+        }
         out.push(Packet::Suback(Suback { pid: Pid::try_from(5).unwrap(), topics: (0..n).map(|i| [SubscribeReturnCode::MaxLevel0, SubscribeReturnCode::MaxLevel2, SubscribeReturnCode::Failure][i % 3]).collect() }));
         if n > 0 {
             out.push(Packet::Subscribe(Subscribe { pid: Pid::try_from(6).unwrap(), topics: (0..n).map(|i| (TopicFilter::try_from(format!("a/{}", i % 7)).unwrap(), QoS::Level1)).collect() }));
@@ -928,6 +939,16 @@ pub fn sweep_v5(thorough: bool) -> Vec<v5::Packet> {
         }
     }
     for n in sweep_counts() {
+        if n > 0 {
+            let mut run = vec![SubscribeReasonCode::GrantedQoS1; n];
+            run.push(SubscribeReasonCode::NotAuthorized);
+            out.push(Packet::Suback(Suback { pid: Pid::try_from(5).unwrap(), properties: Default::default(), topics: run.clone() }));
+            run.rotate_right(1);
+            out.push(Packet::Suback(Suback { pid: Pid::try_from(5).unwrap(), properties: Default::default(), topics: run }));
+            let mut runu = vec![UnsubscribeReasonCode::Success; n];
+            runu.push(UnsubscribeReasonCode::NotAuthorized);
+            out.push(Packet::Unsuback(Unsuback { pid: Pid::try_from(5).unwrap(), properties: Default::default(), topics: runu }));
+        }
         out.push(Packet::Suback(Suback { pid: Pid::try_from(5).unwrap(), properties: Default::default(), topics: (0..n).map(|i| [SubscribeReasonCode::GrantedQoS0, SubscribeReasonCode::GrantedQoS2, SubscribeReasonCode::NotAuthorized][i % 3]).collect() }));
         out.push(Packet::Unsuback(Unsuback { pid: Pid::try_from(5).unwrap(), properties: Default::default(), topics: (0..n).map(|i| [UnsubscribeReasonCode::Success, UnsubscribeReasonCode::NoSubscriptionExisted][i % 2]).collect() }));
         out.push(Packet::Pubrec(Pubrec { pid: Pid::try_from(8).unwrap(), reason_code: PubrecReasonCode::Success, properties: PubrecProperties { reason_string: None, user_properties: users(n) } }));
